@@ -144,6 +144,22 @@ Theorem c12_filtered_sig_detects : forall matches flt p v v' i cs i' cs', flt <>
 Proof. exact filtered_sig_detects. Qed.
 Print Assumptions c12_filtered_sig_detects.
 
+(* An edit of the patterns in the description (403a739: the node's signature covers them, so the node runs again and
+   asks for the keys with the new patterns): if the set of visible entries changes anywhere, the tokens change;
+   switching patterns on or off changes them always.  (The incremental rerun-iff theorem c12_rerun_iff is stated for
+   the unfiltered case only; this corollary is at the level of the tokens of the two descriptions.) *)
+Theorem c12_patterns_edit_detected : forall matches flt flt' p v i cs i' cs', flt <> [] -> flt' <> [] ->
+  prune matches flt v = VNode i cs -> prune matches flt' v = VNode i' cs' ->
+  wf_v (VNode i cs) -> wf_v (VNode i' cs') -> sorted_v (VNode i cs) -> sorted_v (VNode i' cs') ->
+  cs <> cs' -> tree_tokens matches flt p v <> tree_tokens matches flt' p v.
+Proof. exact patterns_edit_detected. Qed.
+Print Assumptions c12_patterns_edit_detected.
+
+Theorem c12_patterns_on_off_detected : forall matches flt p i cs, flt <> [] ->
+  tree_tokens matches [] p (VNode i cs) <> tree_tokens matches flt p (VNode i cs).
+Proof. exact patterns_on_off_detected. Qed.
+Print Assumptions c12_patterns_on_off_detected.
+
 (* REFUTED clause (known finding filtered-listing-stale): with patterns a non-excluded entry added while the directory's
    own record stays the same is seen by neither command (the stored filtered listing is reused); without patterns both
    see it. *)
